@@ -33,7 +33,11 @@ def pair (j : Json) : Json × Json :=
   | _ => (.null, .null)
 
 def parseDS (j : Json) : DS :=
-  if getStr j "k" = "arr" then .arr (parsePS (getD j "items" .null)) else .prim (parsePS j)
+  match getStr j "k" with
+  | "arr" => .arr (parsePS (getD j "items" .null))
+  | "obj" => .obj ((getArr j "props").map (fun kv => (chars (asStr (pair kv).1), parsePS (pair kv).2)))
+      ((getArr j "required").map (fun s => chars (asStr s)))
+  | _ => .prim (parsePS j)
 
 def parseLeaf (j : Json) : Leaf :=
   match getStr j "k" with
@@ -67,7 +71,7 @@ def parseReq (j : Json) : Req :=
   { path := optStr j "path",
     query := (getArr j "query").map (fun kv => (chars (asStr (pair kv).1), (asArr (pair kv).2).map (fun v => chars (asStr v)))),
     header := if isNull j "header" then none else some ((getArr j "header").map (fun v => chars (asStr v))),
-    cookie := optStr j "cookie" }
+    cookie := optStr j "cookie", pathOthers := getBool j "pathOthers" }
 
 def parseTexts (j : Json) : Option Texts :=
   match j.getObjVal? "enc" with
@@ -98,6 +102,7 @@ def pvJsonS : PV → Json
 def dvJson : DV → Json
   | .p v => pvJson v
   | .a xs => Json.arr (xs.map (fun x => match x with | none => Json.null | some v => pvJson v)).toArray
+  | .o kvs => Json.mkObj (kvs.map (fun kv => (text kv.1, pvJson kv.2)))
 
 def valJson : Val → Json
   | .nil => .null
@@ -110,6 +115,7 @@ def valJson : Val → Json
 def dvJsonS : DV → Json
   | .p v => pvJsonS v
   | .a xs => Json.arr (xs.map (fun x => match x with | none => Json.null | some v => pvJsonS v)).toArray
+  | .o kvs => Json.mkObj (kvs.map (fun kv => (text kv.1, pvJsonS kv.2)))
 
 def valJsonS : Val → Json
   | .nil => .null
@@ -145,14 +151,14 @@ def leafHasInt : Leaf → Bool
   | .prim ps => psHasInt ps
   | .arr it _ _ _ => psHasInt it
   | .obj sp _ ad => sp.any (fun kv => psHasInt kv.2) || (match ad with | some a => psHasInt a | none => false)
-  | .deep sp _ => sp.any (fun kv => match kv.2 with | .prim ps => psHasInt ps | .arr it => psHasInt it)
+  | .deep sp _ => sp.any (fun kv => match kv.2 with | .prim ps => psHasInt ps | .arr it => psHasInt it | .obj sub _ => sub.any (fun x => psHasInt x.2))
 
 def psHasNum (ps : PS) : Bool := ps.t = .number
 def leafHasNum : Leaf → Bool
   | .prim ps => psHasNum ps
   | .arr it _ _ _ => psHasNum it
   | .obj sp _ ad => sp.any (fun kv => psHasNum kv.2) || (match ad with | some a => psHasNum a | none => false)
-  | .deep sp _ => sp.any (fun kv => match kv.2 with | .prim ps => psHasNum ps | .arr it => psHasNum it)
+  | .deep sp _ => sp.any (fun kv => match kv.2 with | .prim ps => psHasNum ps | .arr it => psHasNum it | .obj sub _ => sub.any (fun x => psHasNum x.2))
 
 def lowerC (c : Char) : Char := if 65 ≤ c.toNat ∧ c.toNat ≤ 90 then Char.ofNat (c.toNat + 32) else c
 
